@@ -189,6 +189,12 @@ func VerifC16Objects() {
 	} else {
 		vAssert(perr == nil, "complete-write-succeeds")
 	}
+	// deleting a name that is not a key but a prefix of keys removes none of them
+	vAssert(st.Put(ctx, "p/q/one", bytes.NewReader([]byte("1")), storage.NoOverWrite) == nil && st.Put(ctx, "p/q/two", bytes.NewReader([]byte("2")), storage.NoOverWrite) == nil, "put-under-prefix")
+	_ = st.Delete(ctx, "p/q")
+	h1, _ := st.Has(ctx, "p/q/one")
+	h2, _ := st.Has(ctx, "p/q/two")
+	vAssert(h1 && h2, "delete-of-a-prefix-removes-no-key")
 	// delete
 	vAssert(st.Delete(ctx, key) == nil, "delete")
 	has, herr = st.Has(ctx, key)
